@@ -66,10 +66,25 @@ def seed_from_env():
     except ValueError:
         return 1
 
+def _bigstack():
+    """extracted OCaml recurses on the system stack (lists of thousands of cases): raise the soft stack limit"""
+    import resource
+    soft, hard = resource.getrlimit(resource.RLIMIT_STACK)
+    want = 4 << 30
+    if hard != resource.RLIM_INFINITY:
+        want = min(want, hard)
+    if soft == resource.RLIM_INFINITY or soft >= want:
+        return
+    try:
+        resource.setrlimit(resource.RLIMIT_STACK, (want, hard))
+    except (ValueError, OSError):
+        pass
+
 def run(cmd, timeout=None, cwd=None, env=None, input=None, check=False):
     t0 = time.time()
+    pre = _bigstack if (not isinstance(cmd, str) and os.path.dirname(str(cmd[0])) == os.path.join(EXTRACT, "gen")) else None
     p = subprocess.run(cmd, cwd=cwd, env=env, input=input, stdout=subprocess.PIPE, stderr=subprocess.PIPE,
-                       timeout=timeout, text=True, shell=isinstance(cmd, str))
+                       timeout=timeout, text=True, shell=isinstance(cmd, str), preexec_fn=pre)
     p.wall = time.time() - t0
     if check and p.returncode != 0:
         raise RuntimeError("command failed (%d): %s\n%s\n%s" % (p.returncode, cmd, p.stdout[-4000:], p.stderr[-4000:]))
